@@ -374,11 +374,17 @@ func (s *State) evalMapLiteral(node *ast.MapLiteral) object.Object {
 	for _, keyNode := range node.Order {
 		valueNode := node.Pairs[keyNode]
 		key := object.CopyRegister(s.Eval(keyNode))
+		if key.Type() == object.ERROR {
+			return key
+		}
 		if !object.Equals(key, key) {
 			log.Warnf("key %s is not hashable", key.Inspect())
 			return s.NewError("key " + key.Inspect() + " is not hashable")
 		}
 		value := object.CopyRegister(s.Eval(valueNode))
+		if value.Type() == object.ERROR {
+			return value
+		}
 		result = result.Set(key, value)
 	}
 	return result
